@@ -69,11 +69,7 @@ def deriv1(ctx, prog, cfg):
         mm(ctx, "DERIV1", prog, name, [r"call CircularBuffer::%s\(self, index\)" % tgt, r"return CircularBuffer::%s\(self, index\)" % tgt], cfg,
            "forwards to %s(self, index)" % tgt, msg % (name, tgt))
     for name, tgt in ((CB + "nth_back", "get"), (CB + "nth_back_mut", "get_mut")):
-        shapes.contains(ctx, "DERIV1", prog, name,
-                        [r"call CircularBuffer::%s\(self, .*checked_sub\(.*checked_sub\(\(\*self\)\.size, index\).*, 1\).*\)" % tgt], cfg,
-                        "forwards to %s(self, size - index - 1) with checked subtraction" % tgt,
-                        "`%s` no longer computes `size.checked_sub(index)?.checked_sub(1)?` and forwards it to `%s`" % (name, tgt),
-                        forbidden=[r"saturating_sub", r"wrapping_sub", r" Sub\(\(\*self\)\.size, index\)"])
+        nth_back_rule(ctx, prog, name, tgt, cfg)
     for name, tgt in (("<CircularBuffer<N, T> as Index<usize>>::index", "get"), ("<CircularBuffer<N, T> as IndexMut<usize>>::index_mut", "get_mut")):
         mm(ctx, "DERIV1", prog, name, [r"call CircularBuffer::%s\(self, index\)" % tgt, r"call core::option::Option::expect\(CircularBuffer::%s\(self, index\), const\)" % tgt,
                                        r"return Option::expect\(CircularBuffer::%s\(self, index\), const\)" % tgt], cfg,
@@ -171,3 +167,42 @@ def none1(ctx, prog, cfg):
                               "edge bb%d->None establishes %s" % (p, "N == 0" if Z.eq0(Nn) else ("size == 0" if Z.eq0(size0) else "index >= size")), cfg)
         ctx.check({"Some", "None"} <= seen, "NONE1", short, "both outcomes present", f.loc, "return sites %s" % sorted(seen), "Some and None return sites", cfg, nontrivial=False)
     ctx.floor("NONE1", "return edges examined", n, 20, cfg)
+
+
+def nth_back_rule(ctx, prog, name, tgt, cfg):
+    """nth_back(index) = get(size - index - 1), computed without underflow: either the checked_sub
+    chain, or the plain subtraction under the fact index < size"""
+    f = ctx.need_fn(prog, name, "DERIV1")
+    if f is None:
+        return
+    cs = f.calls_to(CB + tgt, unwind=False)
+    ok = len(cs) == 1
+    why = "%d calls of %s" % (len(cs), tgt)
+    if ok:
+        b = cs[0][0]
+        a = [mir.strip_casts(f.deep_simplify(x)) for x in f.call_args(b)]
+        size = common.cur_size(f, b, len(f.blocks[b]["stmts"]))
+        idx = ("param", 2)
+        k = a[1]
+        txt = mir.fmt(k, f)
+        def chk(e):
+            # payload of checked_sub(checked_sub(size, index), 1) through the `?` plumbing
+            s = [x for x in mir.walk(e) if isinstance(x, tuple) and x and x[0] == "pcall" and x[1] == "<usize>::checked_sub"]
+            if len(s) >= 2:
+                outer = s[0]
+                inner = [x for x in s[1:] if mir.strip_casts(x[2][0]) == size and mir.strip_casts(x[2][1]) == idx]
+                return bool(inner) and mir.strip_casts(outer[2][1]) == ("int", 1)
+            return False
+        plain = (isinstance(k, tuple) and k[0] == "binop" and k[1] == "Sub" and mir.strip_casts(k[3]) == ("int", 1)
+                 and isinstance(mir.strip_casts(k[2]), tuple) and mir.strip_casts(k[2])[:2] == ("binop", "Sub")
+                 and mir.strip_casts(mir.strip_casts(k[2])[2]) == size and mir.strip_casts(mir.strip_casts(k[2])[3]) == idx)
+        if chk(k):
+            ok, why = a[0] == ("param", 1), "get(self, size.checked_sub(index)?.checked_sub(1)?)"
+        elif plain:
+            Z = guards.Guards(f).closure(b, extra_terms=[idx, size])
+            ok = a[0] == ("param", 1) and Z.lt(idx, size)
+            why = "get(self, size - index - 1) under index < size" if ok else "`size - index - 1` without the fact index < size (underflows)"
+        else:
+            ok, why = False, "argument `%s` is not size - index - 1" % txt
+    ctx.check(ok, "DERIV1", name, "forwards to %s(self, size - index - 1) without underflow" % tgt, f.loc,
+              "`%s` does not forward to `%s` with `size - index - 1` computed without underflow: %s" % (name, tgt, why), why, cfg)
